@@ -14,7 +14,7 @@ pub fn oracle(o: &Outcome, s: &Scen) -> Option<(String, serde_json::Value)> {
     Kind::Shared => share_oracle(o),
     Kind::Pipe(_) if s.name == "interval+workers" => interval_oracle(o, s).or_else(|| after_unsub(o)),
     Kind::Pipe(_) if s.name.ends_with("[fifo-worker]") => moved_oracle(o, s),
-    Kind::Pipe(_) if matches!(s.name, "debounce+workers" | "throttle_time+workers" | "buffer_with_time+workers") => rate_oracle(o, s).or_else(|| rate_linearizable(o, s)),
+    Kind::Pipe(_) if matches!(s.name, "debounce+workers" | "throttle_time+workers" | "buffer_with_time+workers" | "buffer_with_count_and_time+workers" | "sample(interval)+workers") => rate_oracle(o, s).or_else(|| rate_linearizable(o, s)),
     Kind::Pipe(_) if s.name == "merge_all_threads" => flatten_oracle(o, s),
     Kind::Pipe(_) if two_input_name(s).is_some() => linearizable(o, s, two_input_name(s).unwrap()),
     _ => None,
